@@ -35,7 +35,7 @@ ASSUMPTIONS = ['faults are injected at Python-level calls; DirEntry.is_dir() and
 ERRNOS = ['EACCES', 'EPERM', 'EIO', 'ENOMEM', 'ELOOP', 'ENOTDIR', 'EMFILE', 'ENFILE',
           'ENAMETOOLONG', 'EBUSY', 'ESTALE', 'EOVERFLOW']
 SITE_KINDS = ('open', 'os.open', 'stat', 'lstat', 'fstat', 'scandir', 'scandir.next', 'read')
-OPS = ['verify', 'verify', 'verify-kg', 'cli-verify', 'update', 'cli-update', 'cli-create', 'verify-sub',
+OPS = ['verify', 'verify', 'verify-kg', 'cli-verify', 'cli-verify-kg', 'update', 'cli-update', 'cli-create', 'verify-sub',
        'cli-verify-sub', 'cli-verify-sub', 'cli-update-sub', 'verify-retry', 'verify-retry']
 
 
@@ -154,6 +154,9 @@ def run_op(sc, w, seam, mismatches, extra=None):
             r = call(lambda: ManifestRecursiveLoader(top).assert_directory_verifies('', fail_handler=handler, **lmk))
         elif op == 'cli-verify':
             c = run_cli(['verify', w.root])
+            r = cli_to_r(c)
+        elif op == 'cli-verify-kg':
+            c = run_cli(['verify', '--keep-going', w.root])
             r = cli_to_r(c)
         elif op == 'cli-verify-sub':
             c = run_cli(['verify', os.path.join(w.root, sc['sub'])])
